@@ -152,6 +152,13 @@ def _augment(spec):
         {"kind": "configtype", "key": "zzct", "children": [leaf("secure", "token", method="xor"), leaf("bytes", "raw", encoding="base64"), leaf("str", "full_path"), leaf("int", "load"),
                                                            {"kind": "schemalist", "key": "subs", "children": [leaf("secure", "s", method="aes"), leaf("float", "f")], "configtype": True, "req": False}]},
     ]
+    # a plain nested schema whose only encoded / sensitive fields sit one level further down, in a config type and in
+    # the items of a list of configurations
+    extra.append({"kind": "schema", "key": "zznest", "req": False, "children": [
+        leaf("int", "n"),
+        {"kind": "configtype", "key": "inner", "children": [leaf("secure", "token", method="best"), leaf("str", "note")]},
+        {"kind": "schemalist", "key": "rows", "children": [leaf("secure", "s", method="xor"), leaf("str", "label")], "configtype": False, "req": False},
+    ]})
     keep = [c for c in spec["children"] if not c["key"].startswith("zz")]
     return dict(spec, children=keep + extra)
 
